@@ -316,7 +316,32 @@ func C06(p *core.Program, r *core.Report) {
 		}
 		// the reference is the attribute value without the white space around it (as in the URL
 		// standard: leading and trailing blanks of an attribute are not part of the URL)
+		// - the ASCII white space of the URL standard (tab, LF, FF, CR, space) and only that:
+		// for a browser a value that starts with a no-break space is a relative reference, so
+		// strings.TrimSpace, which also strips Unicode blanks, reads another URL than the page
+		// means (and lets " https://www.youtube.com/..." behind a U+00A0 pass a host test)
 		ref := `strings.TrimSpace($0)`
+		{
+			cn := core.NewCanon(p)
+			nTrim := 0
+			for _, call := range core.Calls(ca, func(ci ssa.CallInstruction) bool { return core.IsCallTo(ci, "strings.Trim") }) {
+				args := call.Common().Args
+				if _, isParam := args[0].(*ssa.Parameter); !isParam {
+					continue
+				}
+				if cut, ok := core.ConstString(args[1]); ok {
+					set := map[rune]bool{}
+					for _, ch := range cut {
+						set[ch] = true
+					}
+					if len(set) == 5 && set[' '] && set['\t'] && set['\n'] && set['\f'] && set['\r'] {
+						nTrim++
+						ref = cn.Of(call.(ssa.Value))
+					}
+				}
+			}
+			r.Add("U3", "CreateAbsoluteURL: the reference is the value without the ASCII white space around it (tab, LF, FF, CR, space - not Unicode blanks)", p.Pos(ca.Pos()), nTrim == 1, fmt.Sprintf("%d strings.Trim of the parameter with exactly that cutset", nTrim))
+		}
 		pr := `url.ParseRequestURI(` + ref + `)`
 		spec := core.DecisionSpec{
 			Atoms: map[string]string{
